@@ -1601,6 +1601,30 @@ def c05_crash(seed, tier):
     W = Work("c05")
     shim = ensure_shim()
     try:
+        # the crash points of a SHRINKING in-place update with block-aligned chunks: every source chunk is already
+        # in place (or all but the last), the file is still as long as the older, larger one - the re-run finds
+        # nothing (or little) to write and must still cut the file to the source length
+        for j in range(10 if tier == "thorough" else 4):
+            bs = rng.choice([64, 256, 1000])
+            blocks = [rng.randbytes(bs) for _ in range(rng.randrange(2, 6))]
+            ssrc = b"".join(blocks)
+            sarch, sapath, scfg, shl = make_archive(W, rng, ssrc, cfg=(["--fixed-size", str(bs)], "F:%d" % bs))
+            old_tail = rng.choice([b"".join(rng.choice(blocks) for _ in range(rng.randrange(1, 4))), rng.randbytes(rng.randrange(1, 3 * bs)),
+                                   blocks[0] + rng.randbytes(bs // 2)])
+            states = [("after-the-last-write", ssrc + old_tail),
+                      ("before-the-last-write", ssrc[:-bs] + rng.randbytes(bs) + old_tail)]
+            for name, state in states:
+                outp = W.write(state, ".out")
+                cls2, rc2, so2, se2 = clone_cli(W, sapath, outp, seed_output=True)
+                req = "shrinking in-place update interrupted %s: cfg=%s src=%s file=%s" % (name, scfg, digest(ssrc), digest(state))
+                R.stat("crash_states_of_a_shrinking_update")
+                if cls2 != "ok":
+                    R.fail("re-run-after-interruption-%s" % cls2, req)
+                elif read_file(outp) != ssrc:
+                    R.fail("re-run-after-interruption-wrong-output", req + " :: length %d, source %d" % (len(read_file(outp)), len(ssrc)))
+                if len(sarch) + len(state) <= 9000:
+                    R.case("clone-ro s - %s %s - -" % (hx(sarch), hx(state)), "result=ok out=%s" % digest(ssrc))
+                os.unlink(outp)
         n = 25 if tier == "thorough" else 6
         for i in range(n):
             src = gen_source(rng, 3000)
